@@ -107,6 +107,20 @@ func runC16(c *fw.C) {
 			}
 			target = cl
 		}
+		if !fresh && i%5 == 4 { // cloning a version that has pending modifications must not read more either
+			if !measure("Clone_of_modified_tree", 1, "", func() error {
+				_, err := acc.T.Clone(e.Ctx)
+				return err
+			}) {
+				return
+			}
+			if !measure("Cursor_of_modified_tree", 1, "", func() error {
+				_, err := acc.T.Cursor(e.Ctx)
+				return err
+			}) {
+				return
+			}
+		}
 		h := int(target.T.Height())
 		if h >= 3 {
 			c.Obs("ops_on_height_ge3", 1)
